@@ -1310,7 +1310,7 @@ func (t *tScreen) buildAcsMap() {
 	nopad.TPuts(&exit, t.ti.ExitAcs)
 	for len(acsstr) > 2 {
 		srcv := acsstr[0]
-		dstv := string(acsstr[1])
+		dstv := string([]byte{acsstr[1]}) // the glyph is a byte of the terminal's own set, not a rune
 		if r, ok := vtACSNames[srcv]; ok {
 			t.acs[r] = enter.String() + dstv + exit.String()
 		}
